@@ -12,6 +12,7 @@ def alphabet(dbs=("a", "b", "c")):
     for d in dbs:
         al += [[f"C 1 create-db {d} t{d}", "PUMP"], [f"C 1 use-db {d} t{d}", f"C 1 set k{d} 1", "PUMP"], [f"C 1 use-db {d} t{d}", "C 1 set shared 2", "PUMP"],
                [f"C 1 use-db {d} t{d}", f"C 1 remove k{d}", "PUMP"], [f"C 1 snapshot false {d}", "PUMP", "SNAP"]]
+    al += [[f"C 1 use-db {d} t{d}", "C 1 increment n 2", "PUMP"] for d in dbs]      # (an increment is logged as an UPDATE of its key)
     al += [["RESTART"] + AFTER, ["PUMP"]]
     return al
 
@@ -36,8 +37,10 @@ def parse_meta(rest):
 
 class C16(Spec):
     pid = "C16"
-    lean_module = "NunVerif.Props.C16"
-    theorems = ["Nun.C16_record_decodes", "Nun.C16_key_ids_injective", "Nun.C16_flag_means_covered", "Nun.C16_restart_keeps_or_discards",
+    lean_module = "NunVerif.Props.C16Flag"
+    theorems = ["Nun.C16_flag_file_refines_the_abstract_flag", "Nun.C16_flag_memory_invalid_implies_disk_invalid", "Nun.C16_flag_invalidate_seeks_then_writes_0", "Nun.C16_flag_mark_invalid_seeks_then_writes_0",
+                "Nun.C16_flag_mark_valid_seeks_then_writes_1", "Nun.C16_flag_reader_reads_first_byte_default_valid", "Nun.C16_flag_writer_is_unbuffered", "Nun.meta_keyId_is_invalidate", "Nun.meta_snapshotKeys_is_markValid", "Nun.meta_restart_is_reopen",
+                "Nun.C16_record_decodes", "Nun.C16_key_ids_injective", "Nun.C16_flag_means_covered", "Nun.C16_restart_keeps_or_discards",
                 "Nun.C16_loop_is_write", "Nun.C16_loop_is_machine", "Nun.C16_crash_is_a_run", "Nun.trace_is_step", "Nun.restartCrashed_cases", "Nun.C16_next_db_id_fresh", "Nun.C16_db_id_rule_pin", "Nun.C16_startup_pin", "Nun.step_inv", "Nun.step_stable"]
     impl_env = {"NUN_MAX_OP_LOG_SIZE": "2500"}
     rule = ("histories of create-db / first write of a new key / write of a known key / remove / snapshot of a subset of the databases / restart in every order over 1-3 databases, "
